@@ -58,3 +58,11 @@ theorem C09_range_total (wt : WText W) (ops : WOps W) (s : Bytes) (r : HandRange
   exact C08.C08_total ops flop _ a b hw hs
 
 end EspadaVerif.C09
+
+namespace EspadaVerif.C09
+
+/-- the seven pattern literals read from the source of `HandRangeToken::from_str` on this run are the literals the
+model's hand-written recognisers stand for (anchored, ASCII classes only, weight grammar `0(.d+)?|1(.0+)?`) -/
+theorem C09_regex_literals : Gen.tokenRegexSrc = expectedRegexSrc := by rfl
+
+end EspadaVerif.C09
